@@ -637,6 +637,113 @@ theorem tls12_connection_meta_exact (H : Crypto.Prims) (P : Prims) (L : SealLaws
   rw [hmerge d, htr2, htr1]
   cases d <;> simp [dirPlain, Snd.get, legacySnd, Session.St.init]
 
+/-- C01 ∧ C13 for a whole TLS 1.3 connection WITH `-a`: per direction the hello record verbatim followed by
+    `metaStream13` — dummy ChangeCipherSpec records verbatim, protected handshake records (flights, tickets) NOT AT
+    ALL, application data as plaintext. -/
+theorem tls13_connection_meta_exact (H : Crypto.Prims) (P : Prims) (L : SealLaws P) (kl : List Keylog.Key)
+    (info : Nat → Pipeline.Info) (c : Pipeline.Conn) (hmeta : c.opts.metadata = true)
+    -- the connection as sent
+    (t : Transcript) (hch : t.ch.WellFormed) (hsh : t.sh.WellFormed) (hrc : t.rvC.length = 2) (hrs : t.rvS.length = 2)
+    (hv : t.ver.length = 2) (hcomp : t.sh.compressionMethod = 0) (hneg : Negotiated t.rvS t.sh .tls13)
+    -- suite table (C14), key log (C09), key schedule (C15), as in `genKeys_installs_rel_13`
+    (ps : CipherSuite.Params) (hres : CipherSuite.resolve (Bytes.beNat t.sh.cipherSuite) = some ps)
+    (a : Pipeline.SuiteArgs) (hargs : Pipeline.suiteArgs ps = some a)
+    (f : Keylog.Key) (fs : List Keylog.Key)
+    (hfound : Keylog.findSessionSecrets kl (Pipeline.natsOfBytes t.ch.random) = f :: fs)
+    (secrets : List KeySchedule.Secret) (hsec : Pipeline.secretsOf true (f :: fs) = some secrets)
+    (k : KeySchedule.Installed13)
+    (hgen : KeySchedule.generateKeys H .tls13 a.ks secrets t.ch.random t.sh.random = .ok (some (.tls13 k)))
+    (chk chiv cak caiv shk shiv sak saiv : Bytes)
+    (hk : k.clientHsKey = some chk ∧ k.clientHsIv = some chiv ∧ k.clientAppKey = some cak ∧ k.clientAppIv = some caiv ∧
+      k.serverHsKey = some shk ∧ k.serverHsIv = some shiv ∧ k.serverAppKey = some sak ∧ k.serverAppIv = some saiv)
+    (cls : CipherClass)
+    (hcls : classOf a.bulk .tls13
+      (Session.extGet ((t.sh.extensions.getD []).map extPair) [0x00, 0x16]).isSome a.tagLen = some cls)
+    (h1 : KeyMatOk cls chk chiv) (h2 : KeyMatOk cls cak caiv) (h3 : KeyMatOk cls shk shiv) (h4 : KeyMatOk cls sak saiv)
+    -- what follows the hellos
+    (hsc : Script13 t.cEvs) (hss : Script13 t.sEvs)
+    (hokc : ∀ e ∈ t.cEvs, EvOk1 cls (KeySchedule.macSuite H a.ks.mac).outLen e)
+    (hoks : ∀ e ∈ t.sEvs, EvOk1 cls (KeySchedule.macSuite H a.ks.mac).outLen e)
+    (hwr : ∀ d, ∀ r ∈ t.records P L cls ⟨SDir.init chk chiv cak caiv, SDir.init shk shiv sak saiv⟩ d, WholeRecord r)
+    (hlen : budget13 t ≤ seqLimit)
+    -- the capture
+    (hdel : DeliveredInOrder info c (t.stream P L cls ⟨SDir.init chk chiv cak caiv, SDir.init shk shiv sak saiv⟩))
+    (hcausal : Causal13 (connRecs info c)) :
+    ∃ frames, Pipeline.connOut H P info c kl = some (frames.map (Pipeline.addressed c.opts c)) ∧
+      Spec.reassemble frames = some
+        (t.chRecord ++ metaStream13 P L cls t.ver (SDir.init chk chiv cak caiv) t.cEvs,
+         t.shRecord ++ metaStream13 P L cls t.ver (SDir.init shk shiv sak saiv) t.sEvs) ∧
+      TimesFromCarriers info c frames := by
+  apply export_of_dirPlain
+  rw [hmeta]
+  have hproj : ∀ d, ((connRecs info c).filter fun q => q.2 == d).map (·.1.raw)
+      = t.records P L cls ⟨SDir.init chk chiv cak caiv, SDir.init shk shiv sak saiv⟩ d := by
+    intro d
+    obtain ⟨⟨isn, hio⟩, hl⟩ := hdel d
+    exact released_dir_records info c.server c.pkts d isn _ (hwr d) hio hl
+  have hC := hproj false
+  have hS := hproj true
+  simp only [Transcript.records, Bool.false_eq_true, if_false, if_true] at hC hS
+  obtain ⟨⟨r0, d0⟩, ⟨r1, d1⟩, M', hM, hd0, hd1⟩ := hcausal
+  simp only at hd0 hd1
+  subst hd0 hd1
+  rw [hM] at hC hS ⊢
+  rw [filter_dir_cons_same, filter_dir_cons_other _ _ _ _ (by decide), List.map_cons] at hC
+  rw [filter_dir_cons_other _ _ _ _ (by decide), filter_dir_cons_same, List.map_cons] at hS
+  simp only [List.cons.injEq] at hC hS
+  obtain ⟨hc1, hC'⟩ := hC
+  obtain ⟨hs1, hS'⟩ := hS
+  have hr0 : r0 = ⟨t.chRecord, r0.carriers⟩ := by have h : r0.raw = t.chRecord := hc1; rw [← h]
+  have hr1 : r1 = ⟨t.shRecord, r1.carriers⟩ := by have h : r1.raw = t.shRecord := hs1; rw [← h]
+  have h0 : (Session.St.init : Session.St Dec).srvCC = false ∧ (Session.St.init : Session.St Dec).cliCC = false :=
+    ⟨rfl, rfl⟩
+  obtain ⟨g1, _, g3⟩ := server_hello_installs H P kl true Session.St.init h0 t.ch hch t.sh hsh t.rvC t.rvS hrc hrs
+    r0.carriers r1.carriers .tls13 hneg
+  obtain ⟨dd, hinst, hR⟩ := genKeys_installs_rel_13 H P kl t.sh.cipherSuite t.ch.random t.sh.random
+    ((t.sh.extensions.getD []).map extPair) hsh.2.2.2.1 ps hres a hargs f fs hfound secrets hsec k hgen
+    chk chiv cak caiv shk shiv sak saiv hk cls hcls h1 h2 h3 h4
+  rw [hcomp, hinst] at g3
+  simp only at g3
+  have h13 : cls.is13 = true := by rw [(classOf_spec _ _ _ _ cls hcls).2.2.2]; rfl
+  have ht1 : (⟨t.chRecord, r0.carriers⟩ : Session.Rec).typ = some 0x16 := record_typ 22 _ _ _
+  have ht2 : (⟨t.shRecord, r1.carriers⟩ : Session.Rec).typ = some 0x16 := record_typ 22 _ _ _
+  have hst1 := Session.handleRecord_strip (Pipeline.ops H P kl) Session.St.init ⟨t.chRecord, r0.carriers⟩ false
+  have hi0 : (Session.St.init : Session.St Dec).strip = Session.St.init := rfl
+  rw [hi0] at hst1
+  have hf1 := handle_hs_flags (Pipeline.ops H P kl) Session.St.init ⟨t.chRecord, r0.carriers⟩ false ht1 h0
+  have hfl1 : (Session.handleRecord (Pipeline.ops H P kl) true Session.St.init ⟨t.chRecord, r0.carriers⟩ false).srvCC = false ∧
+      (Session.handleRecord (Pipeline.ops H P kl) true Session.St.init ⟨t.chRecord, r0.carriers⟩ false).cliCC = false := by
+    have a := congrArg Session.St.srvCC hst1
+    have b := congrArg Session.St.cliCC hst1
+    simp only [Session.strip_srvCC, Session.strip_cliCC] at a b
+    exact ⟨a.trans hf1.1, b.trans hf1.2⟩
+  obtain ⟨_, chrest, hchd⟩ := clientHello_layout t.ch hch
+  obtain ⟨shrest, hshd⟩ : ∃ rest, Spec.TlsHello.encodeServerHello t.sh = 2 :: rest :=
+    ⟨_, by simp only [Spec.TlsHello.encodeServerHello, Spec.TlsHello.handshake, Lemmas.TlsHello.u8_eq, List.cons_append,
+      List.nil_append]; rfl⟩
+  have htr1 := handle_hello_meta (Pipeline.ops H P kl) Session.St.init ⟨t.chRecord, r0.carriers⟩ false ht1 h0 1 chrest
+    (by rw [Transcript.chRecord, record_body 22 _ _ _ hrc, hchd]) (Or.inl rfl)
+  have htr2 := handle_hello_meta (Pipeline.ops H P kl) _ ⟨t.shRecord, r1.carriers⟩ true ht2 hfl1 2 shrest
+    (by rw [Transcript.shRecord, record_body 22 _ _ _ hrs, hshd]) (Or.inr rfl)
+  have hready : Ready cls (KeySchedule.macSuite H a.ks.mac).outLen
+      ⟨SDir.init chk chiv cak caiv, SDir.init shk shiv sak saiv⟩
+      (Session.handleRecord (Pipeline.ops H P kl) true
+        (Session.handleRecord (Pipeline.ops H P kl) true Session.St.init ⟨t.chRecord, r0.carriers⟩ false)
+        ⟨t.shRecord, r1.carriers⟩ true) :=
+    ⟨g3.1, ⟨.tls13, g1, ⟨fun _ => h13, fun _ => rfl⟩⟩, dd, g3.2, hR⟩
+  rw [hr0, hr1]
+  have hmerge := run_merge13m H P L kl cls h13 _ t.ver hv M'
+    ⟨SDir.init chk chiv cak caiv, SDir.init shk shiv sak saiv⟩ _
+    (fun d => if d then t.sEvs else t.cEvs) hready
+    (by intro d; cases d; exact hsc; exact hss)
+    (by intro d e he; cases d; exact hokc e he; exact hoks e he)
+    (by intro d; cases d; exact hC'; exact hS')
+    (by simp only [SDir.init, budget13] at hlen ⊢; simpa using hlen)
+  intro d
+  simp only [Session.run, List.foldl_cons] at hmerge ⊢
+  rw [hmerge d, htr2, htr1]
+  cases d <;> simp [dirPlain, Snd.get, Session.St.init]
+
 -- ====================================================================== non-vacuity and counterexamples
 namespace Ex2
 open TLX.Props.C01Pipeline.Ex2 TLX.Props.C01.Ex TLX.Props.C01Capstone.Ex
